@@ -17,6 +17,9 @@ let step_oracles (bump : str -> unit) (pre : vt) (f : func) (post : vt) : (str *
   chk "C06" "scroll" (holds_C06 pre f post);
   chk "C06" "margins_modes" (holds_C06_modes pre f post);
   chk "C07" "edit" (holds_C07 pre f post);
+  (* "a row stops being soft-wrapped when its tail is erased or characters are deleted from it": claimed outside the
+     known-finding class KF-C07-1 (EL 1 / ED 1 reaching the end of a soft-wrapped row; reported by the caller) *)
+  if not (kf1_C07 pre f) then chk "C07" "wrap_mark" (holds_C07_wrapmark pre f post);
   chk "C08" "sgr" (holds_C08 pre f post);
   chk "C16" "alt" (holds_C16 pre f post);
   (* C08: blanks produced by entering the alternate screen carry the current pen (same clause as C16's entry statement) *)
